@@ -238,6 +238,11 @@ func Analyze(info *types.Info, fn ast.Node, body *ast.BlockStmt, entry Set) *Res
 			if record {
 				res.Ops = append(res.Ops, Op{Node: n, Call: call, Key: key, Kind: kind, Defer: isDefer, Before: st.must.Clone()})
 			}
+			// a read lock is held under a key of its own (key#r): it does not exclude other readers, so it protects reads
+			// against writers but never a write
+			if kind == "RLock" || kind == "RUnlock" || kind == "TryRLock" {
+				key += "#r"
+			}
 			switch kind {
 			case "Lock", "RLock":
 				if isDefer {
@@ -446,4 +451,20 @@ func (r *Result) UndeferredAt(n ast.Node) Set {
 		return Set{}
 	}
 	return r.Undeferred[best]
+}
+
+// Effective returns the locks of held that protect an access: an exclusive lock protects reads and writes, a read lock
+// (key#r) protects reads only and is reported under the plain key.
+func Effective(held Set, write bool) Set {
+	out := Set{}
+	for k := range held {
+		if strings.HasSuffix(k, "#r") {
+			if !write {
+				out[strings.TrimSuffix(k, "#r")] = true
+			}
+			continue
+		}
+		out[k] = true
+	}
+	return out
 }
